@@ -22,27 +22,31 @@ pub mod str_vec;
 pub(crate) fn group_by<P, T, K>(data: &[T], projection: P) -> Vec<(K, Vec<T>)>
 where
     P: Fn(&T) -> K,
-    K: Eq + Hash,
+    K: Eq + Hash + Clone,
     T: Clone,
 {
+    // The groups are returned in the order of the first occurrence of their keys. The order must
+    // not depend on the iteration order of a hash map, otherwise generated output would differ
+    // from process to process.
+    let mut keys: Vec<K> = Vec::new();
     let mut grouping: HashMap<K, Vec<T>> = HashMap::new();
-    data.iter()
-        .fold(&mut grouping, |acc, t| {
-            let key = projection(t);
-            if let Some(vt) = acc.get_mut(&key) {
-                vt.push(t.clone());
-            } else {
-                acc.insert(key, vec![t.clone()]);
-            }
-            acc
+    for t in data {
+        let key = projection(t);
+        if let Some(vt) = grouping.get_mut(&key) {
+            vt.push(t.clone());
+        } else {
+            keys.push(key.clone());
+            grouping.insert(key, vec![t.clone()]);
+        }
+    }
+    keys.into_iter()
+        .map(|k| {
+            let v = grouping.remove(&k).unwrap_or_default();
+            (k, v)
         })
-        .drain()
         .collect()
 }
 
-/// Generates a new unique name avoiding collisions with the names given in the 'exclusions'.
-/// It takes a preferred name and if it collides it adds an increasing suffix number.
-/// If the preferred name already has a suffix number it starts counting up from this number.
 pub(crate) fn generate_name<T>(
     exclusions: impl Iterator<Item = T> + Clone,
     preferred_name: String,
